@@ -519,10 +519,10 @@ func (st *Runtime) executeList(list *ListNode) (returnValue reflect.Value) {
 								st.variables[node.Set.Left[valVarSlot].String()] = rangeValue
 							}
 						} else {
-							if keyVarSlot >= 0 {
+							if keyVarSlot >= 0 && node.Set.Left[keyVarSlot].Type() != NodeUnderscore {
 								st.executeSet(node.Set.Left[keyVarSlot], indexValue)
 							}
-							if valVarSlot >= 0 {
+							if valVarSlot >= 0 && node.Set.Left[valVarSlot].Type() != NodeUnderscore {
 								st.executeSet(node.Set.Left[valVarSlot], rangeValue)
 							}
 						}
